@@ -316,7 +316,7 @@ func (p *cparser) binary(min int) *CE {
 }
 
 func (p *cparser) unary() *CE {
-	if p.isOp("!") || p.isOp("-") || p.isOp("^") {
+	if p.isOp("!") || p.isOp("-") || p.isOp("^") || p.isOp("*") {
 		op := p.next().s
 		return &CE{Kind: "un", Name: op, Args: []*CE{p.unary()}}
 	}
